@@ -322,6 +322,8 @@ class List(list, base.Symbolic, pg_typing.CustomTyping):
     """Override Symbolic._clone."""
     source = []
     for v in self.sym_values():
+      if pg_typing.MISSING_VALUE == v:
+        continue
       if deep or isinstance(v, base.Symbolic):
         v = base.clone(v, deep, memo)
       source.append(v)
@@ -339,7 +341,29 @@ class List(list, base.Symbolic, pg_typing.CustomTyping):
           # NOTE(daiyip): parent and root_path are reset to empty
           # for copy object.
           root_path=None)
+    self._copy_removal_markers(new_list)
     return new_list.sym_seal(self._sealed)
+
+  def _copy_removal_markers(self, new_list: 'List') -> None:
+    """Puts the MISSING_VALUE placeholders of `self` into its copy `new_list`.
+
+    An element replaced by MISSING_VALUE stays in the list as a placeholder
+    until the next change notification drops it (so indices do not shift within
+    a batch of updates). The constructor skips such placeholders, so a copy
+    taken in between would have other elements at its positions than the
+    original and would not be symbolically equal to it.
+
+    Args:
+      new_list: a copy of `self` that holds the copies of all elements of `self`
+        other than the placeholders, in order.
+    """
+    holes = [i for i, v in enumerate(self.sym_values())
+             if pg_typing.MISSING_VALUE == v]
+    if holes:
+      for i in holes:
+        list.insert(new_list, i, pg_typing.MISSING_VALUE)
+      new_list._update_children_indices()   # pylint: disable=protected-access
+      new_list._invalidate_content_cache()  # pylint: disable=protected-access
 
   def _sym_missing(self) -> Dict[Any, Any]:
     """Returns missing fields."""
@@ -707,7 +731,11 @@ class List(list, base.Symbolic, pg_typing.CustomTyping):
 
   def copy(self) -> 'List':
     """Shallow current list."""
-    return List(super().copy(), value_spec=self._value_spec)
+    new_list = List(
+        [v for v in self.sym_values() if pg_typing.MISSING_VALUE != v],
+        value_spec=self._value_spec)
+    self._copy_removal_markers(new_list)
+    return new_list
 
   def append(self, value: Any) -> None:
     """Appends an item."""
